@@ -409,9 +409,9 @@ class UnidirectionalUnifier(UnifierBase):
                     if len(non_var_children) != 0:
                         # urecs was merged in.
                         yield result
-                        return
-                    # urecs was not merged in, do it here.
-                    yield from unify_many(urecs, result)
+                    else:
+                        # urecs was not merged in, do it here.
+                        yield from unify_many(urecs, result)
 
         yield from match_children(
             UnificationRecord([]),
